@@ -278,3 +278,7 @@ func JSONText(b []byte) (string, bool) {
 	}
 	return s, true
 }
+
+// PreemptBudget allows the symbolic scheduler up to n preemptions at atomic operations of
+// spawned goroutines (no native counterpart: native runs use stress instead).
+func PreemptBudget(n int) {}
